@@ -92,11 +92,24 @@ class C09(WigBedProp):
                 path = os.path.join(outdir, c.id + ".bin")
                 if os.path.exists(path):
                     stage.append(CaseT("wf_" + c.id, "wfwig" if c.kind == "wig" else "wfbed", [], [f"FILE {path}"]))
+                    # the theorem-carrying model file (fileOf / bedFileOf) against these very bytes
+                    zl = any(l.split(" ")[0] in ("V", "E") and l.split(" ")[2] == l.split(" ")[3] for l in c.lines)
+                    if not zl:
+                        stage.append(CaseT("fo_" + c.id, "fileof", [c.kind], [f"FILE {path}"] + c.lines))
         mo = run_model(stage, os.path.join(workdir, "wf"))
         acc = 0
         cases = {c.id: c for c in self._last_cases}
+        fo_eq = fo_ne = 0
+        fo_first = None
         for sc in stage:
             ml = mo.get(sc.id, ["no answer"])
+            if sc.kind == "fileof":
+                if ml and ml[0] == "FILEOF eq":
+                    fo_eq += 1
+                else:
+                    fo_ne += 1
+                    fo_first = fo_first or (sc.id[3:], ml[0] if ml else "")
+                continue
             if ml and ml[0].startswith("WF ok"):
                 acc += 1
             elif not any("lean_wf" in v[0] for v in rep.violations):
@@ -105,7 +118,10 @@ class C09(WigBedProp):
                               f"# the Lean well-formedness certificate rejects the written file: {ml[0] if ml else ''}\n"
                               f"# (the Python decoder accepted it: a disagreement between the two judges, or a defect the Python judge misses)\n")
         rep.coverage["files_judged_by_python_decoder"] = len(self._last_cases)
-        rep.coverage["files_judged_by_lean_certificate"] = len(stage)
+        rep.coverage["model_file_equals_real_bytes"] = {"equal": fo_eq, "different": fo_ne}
+        if fo_first:
+            rep.notes.append(f"(B) fileOf/bedFileOf differs from the real bytes on {fo_ne} files (first: {fo_first}); observables agree, so this is a note")
+        rep.coverage["files_judged_by_lean_certificate"] = len(stage) - fo_eq - fo_ne
         rep.coverage["files_accepted_by_lean_certificate"] = acc
         rep.evals += len(stage)
 
